@@ -357,6 +357,94 @@ func modelled(h *hist.History) bool {
 	return true
 }
 
+// recordListCheck decodes, from the index files, the record list every non-empty bucket points at and checks the
+// C08/C07 invariants on the real bytes: complete non-deleted record tagged with its bucket; entries sorted by stored
+// prefix and pairwise prefix-free; every entry names a complete live primary record whose index key carries the
+// bucket bits and the stored prefix; locations distinct. Returns "" or the first violation.
+func (r *runner) recordListCheck() string {
+	tbl := r.s.Index().VerifBuckets()
+	files := map[int][]byte{}
+	for b, p := range tbl {
+		if p == 0 {
+			continue
+		}
+		f := int((int64(p) - 4) / int64(r.h.Cfg.Imax))
+		lp := int64(p) - int64(f)*int64(r.h.Cfg.Imax)
+		data, ok := files[f]
+		if !ok {
+			var err error
+			data, err = os.ReadFile(filepath.Join(r.dir, fmt.Sprintf("i.%d", f)))
+			if err != nil {
+				return fmt.Sprintf("bucket %d points into index file %d: %v", b, f, err)
+			}
+			files[f] = data
+		}
+		if lp < 4 || lp+4 > int64(len(data)) {
+			return fmt.Sprintf("bucket %d points at %d in i.%d of %d bytes", b, lp, f, len(data))
+		}
+		raw := binary.LittleEndian.Uint32(data[lp-4:])
+		if raw&(1<<31) != 0 {
+			return fmt.Sprintf("bucket %d points at a deleted record (i.%d @%d)", b, f, lp)
+		}
+		sz := int64(raw)
+		if lp+sz > int64(len(data)) || sz < 4 {
+			return fmt.Sprintf("bucket %d points at an incomplete record (i.%d @%d size %d, file %d)", b, f, lp, sz, len(data))
+		}
+		if tag := binary.LittleEndian.Uint32(data[lp:]); int(tag) != b {
+			return fmt.Sprintf("bucket %d points at a record tagged %d", b, tag)
+		}
+		rl := data[lp+4 : lp+sz]
+		var prev []byte
+		seen := map[string]bool{}
+		for q := 0; q < len(rl); {
+			if q+13 > len(rl) {
+				return fmt.Sprintf("bucket %d: truncated entry", b)
+			}
+			off := binary.LittleEndian.Uint64(rl[q:])
+			bsz := binary.LittleEndian.Uint32(rl[q+8:])
+			kl := int(rl[q+12])
+			if q+13+kl > len(rl) {
+				return fmt.Sprintf("bucket %d: truncated key", b)
+			}
+			pfx := rl[q+13 : q+13+kl]
+			q += 13 + kl
+			if kl == 0 {
+				return fmt.Sprintf("bucket %d: empty stored prefix", b)
+			}
+			if prev != nil {
+				if string(prev) >= string(pfx) {
+					return fmt.Sprintf("bucket %d: stored prefixes not strictly sorted: %x then %x", b, prev, pfx)
+				}
+				if len(prev) <= len(pfx) && string(pfx[:len(prev)]) == string(prev) {
+					return fmt.Sprintf("bucket %d: stored prefix %x is a prefix of %x", b, prev, pfx)
+				}
+			}
+			prev = pfx
+			loc := fmt.Sprintf("%d:%d", off, bsz)
+			if seen[loc] {
+				return fmt.Sprintf("bucket %d: two entries name location %s", b, loc)
+			}
+			seen[loc] = true
+			k, _, err := r.s.Primary().Get(types.Block{Offset: types.Position(off), Size: types.Size(bsz)})
+			if err != nil || k == nil {
+				return fmt.Sprintf("bucket %d: entry %x names location %s which holds no live record (%v)", b, pfx, loc, err)
+			}
+			ik, err := r.s.Primary().IndexKey(k)
+			if err != nil || len(ik) < 4 {
+				return fmt.Sprintf("bucket %d: entry %x: bad key in primary", b, pfx)
+			}
+			if int(binary.LittleEndian.Uint32(ik)&(1<<r.bits-1)) != b {
+				return fmt.Sprintf("bucket %d: entry %x names a record of bucket %d", b, pfx, binary.LittleEndian.Uint32(ik)&(1<<r.bits-1))
+			}
+			st := ik[r.bits/8:]
+			if len(st) < kl || string(st[:kl]) != string(pfx) {
+				return fmt.Sprintf("bucket %d: stored prefix %x is not a prefix of its own key %x", b, pfx, st)
+			}
+		}
+	}
+	return ""
+}
+
 func hx(b []byte) *string { s := hex.EncodeToString(b); return &s }
 
 func (r *runner) run() (term string, err error) {
@@ -540,6 +628,9 @@ func (r *runner) run() (term string, err error) {
 			r.observe()
 			extra["dir"] = r.dirState()
 			extra["pools_empty"] = len(pendingRecs) == 0
+			if len(pendingRecs) == 0 && e == nil {
+				extra["rl_check"] = r.recordListCheck()
+			}
 		case "reopen", "missize":
 			before := fileSizes(r.dir, "i")
 			if e := s.Close(); e != nil {
